@@ -85,6 +85,9 @@ def main():
     if driver_ok:
         try:
             ctx.driver = C.Driver()
+            import props.steppers as _S
+            _S.DRIVER = ctx.driver
+            _S._EFF_CACHE.clear()
             with contextlib.redirect_stdout(sys.stderr):   # the package prints warnings on stdout
                 mod.correspondence(ctx)
         except C.DriverError as e:
